@@ -1,7 +1,26 @@
-"""Entry point: ./check Cxx [--tier quick|thorough] [--replay path]"""
-import sys, os, importlib, argparse, json, traceback
+"""Entry point: ./check Cxx [--tier quick|thorough] [--replay path]
+
+The check itself runs in a child process; this supervisor enforces a wall-clock
+limit so that an implementation that no longer terminates (e.g. a mutated pivoting
+loop spinning up to max_iter=10**6) is reported as a violation instead of hanging
+the check: the property is then no longer shown to hold for the code."""
+import sys, os, importlib, argparse, json, traceback, subprocess, time
 sys.path.insert(0, os.path.dirname(os.path.abspath(__file__)))
 import common
+
+LIMITS = {"quick": int(os.environ.get("VERIF_QUICK_LIMIT_S", "1500")),
+          "thorough": int(os.environ.get("VERIF_THOROUGH_LIMIT_S", "14400"))}
+
+
+def child(a, prop, tier):
+    mod = importlib.import_module(prop.lower())
+    ctx = common.Ctx(prop, tier, a.seed)
+    try:
+        mod.run(ctx)
+    except Exception as e:  # machinery failure: never silently pass
+        traceback.print_exc()
+        ctx.obligations.append({"name": "harness ran to completion", "ok": False, "detail": repr(e)[:500]})
+    sys.exit(ctx.finish(**getattr(mod, "FINISH", {})))
 
 
 def main():
@@ -10,19 +29,43 @@ def main():
     ap.add_argument("--tier", default=os.environ.get("VERIF_TIER", "quick"))
     ap.add_argument("--replay", default=None)
     ap.add_argument("--seed", default=None)
+    ap.add_argument("--child", action="store_true")
     a = ap.parse_args()
     prop = a.prop.upper()
-    mod = importlib.import_module(prop.lower())
+    tier = a.tier if a.tier in ("quick", "thorough") else "quick"
     if a.replay:
+        mod = importlib.import_module(prop.lower())
         data = json.load(open(a.replay))
         sys.exit(mod.replay(data))
-    ctx = common.Ctx(prop, a.tier if a.tier in ("quick", "thorough") else "quick", a.seed)
+    if a.child:
+        child(a, prop, tier)
+    t0 = time.time()
+    cmd = [sys.executable, "-u", os.path.abspath(__file__), prop, "--tier", tier, "--child"]
+    if a.seed is not None:
+        cmd += ["--seed", str(a.seed)]
+    p = subprocess.Popen(cmd)
     try:
-        mod.run(ctx)
-    except Exception as e:  # machinery failure: never silently pass
-        traceback.print_exc()
-        ctx.obligations.append({"name": "harness ran to completion", "ok": False, "detail": repr(e)[:500]})
-    sys.exit(ctx.finish(**getattr(mod, "FINISH", {})))
+        rc = p.wait(timeout=LIMITS[tier])
+    except subprocess.TimeoutExpired:
+        p.kill()
+        p.wait()
+        subprocess.run(["pkill", "-KILL", "-P", str(p.pid)], stderr=subprocess.DEVNULL)
+        seed = int(a.seed if a.seed is not None else os.environ.get("VERIF_SEED", "20260930"))
+        os.makedirs(os.path.join(common.VERIF, "replays"), exist_ok=True)
+        path = os.path.join(common.VERIF, "replays", "%s_%s_%d_timeout.json" % (prop, tier, seed))
+        json.dump({"property": prop, "kind": "check-did-not-terminate", "seed": seed, "tier": tier,
+                   "no_longer_checks": ["the %s-tier check of %s did not finish within %d s on this tree "
+                                        "(an implementation call or a proof build no longer terminates in time)" % (tier, prop, LIMITS[tier])]},
+                  open(path, "w"), indent=1)
+        ev = {"property_id": prop, "tier": tier, "seed": seed, "level": "proof",
+              "coverage": {"obligations": 1, "discharged": 0, "checker_cmd": "./check %s --tier %s" % (prop, tier),
+                           "trusted_base": [], "evaluations": 1, "distinct_nontrivial": 0,
+                           "explanation": "check killed by the supervisor after %d s" % LIMITS[tier]},
+              "assumptions": [], "wall_s": round(time.time() - t0, 1), "violations": 1}
+        json.dump(ev, open(os.path.join(common.VERIF, "evidence", prop + ".json"), "w"), indent=1)
+        print("VIOLATION property=%s replay=%s no-failing-input-found" % (prop, path))
+        sys.exit(1)
+    sys.exit(rc)
 
 
 if __name__ == "__main__":
